@@ -2,10 +2,12 @@
 (* Trace validation for C06.  The harness logs, for every real Validator it built, a "reset"    *)
 (* event (its abstract configuration and the clock), then "present" events (the abstract record *)
 (* of the request it concretised and sent through the server path, with the observed result)    *)
-(* "adv" events (the JWT clock moved) and "sync" events (a snapshot of the credential table was  *)
-(* delivered to the validator's etcd watcher and applied).  Every present event must be a        *)
-(* Present step of the contract (Validator.tla) with the observed result among                   *)
-(* Outcomes(cfg, req, Env(now, users)).                                                          *)
+(* "adv" events (the JWT clock moved), "sync" events (a snapshot of the credential table was     *)
+(* delivered to the validator's etcd watcher and applied) and "reconf" events (a new generation  *)
+(* was built from a new spec with Inherit(running generation), the old one closed; the event     *)
+(* carries the abstract configuration, credential material and user table of the new spec).      *)
+(* Every present event must be a Present step of the contract (Validator.tla) with the observed  *)
+(* result among Outcomes(cfg, req, Cur).                                                         *)
 (*                                                                                              *)
 (* Events the contract does not allow are NOT a dead end here: they are consumed, and recorded  *)
 (* in `bad` together with the per-method verdicts, so that one run judges every logged case     *)
@@ -23,42 +25,51 @@ VARIABLES l,      \* next trace line
 tvars == <<vars, l, pl, bad>>
 
 NoReqs(c) == {}
+NoRecfgs(c, e) == {}
 
 IsEvent(e) == l <= Len(TLog) /\ TLog[l].ev = e /\ l' = l + 1
 
 TReset ==
     /\ IsEvent("reset")
-    /\ cfg' = TLog[l].cfg /\ now' = TLog[l].now /\ users' = Users0 /\ at' = Env(TLog[l].now, Users0)
-    /\ req' = NoReq /\ res' = NoRes /\ n' = 0 /\ ns' = 0
+    /\ cfg' = TLog[l].cfg /\ mat' = Mat0 /\ now' = TLog[l].now /\ users' = Users0
+    /\ at' = Env(TLog[l].cfg, TLog[l].now, Users0, Mat0)
+    /\ req' = NoReq /\ res' = NoRes /\ n' = 0 /\ ns' = 0 /\ nr' = 0
     /\ UNCHANGED <<bad, pl>>
 
 TAdv ==
     /\ IsEvent("adv")
     /\ TLog[l].d > 0
     /\ now' = now + TLog[l].d
-    /\ UNCHANGED <<cfg, users, req, res, at, n, ns, bad, pl>>
+    /\ UNCHANGED <<cfg, mat, users, req, res, at, n, ns, nr, bad, pl>>
 
 TSync ==
     /\ IsEvent("sync")
     /\ cfg.basic = "etcd" /\ TLog[l].users \in UserTables
     /\ users' = TLog[l].users /\ ns' = ns + 1
-    /\ UNCHANGED <<cfg, now, req, res, at, n, bad, pl>>
+    /\ UNCHANGED <<cfg, mat, now, req, res, at, n, nr, bad, pl>>
+
+TReconf ==
+    /\ IsEvent("reconf")
+    /\ TLog[l].mat \in Mats /\ TLog[l].users \in UserTables
+    /\ Reconfigure([cfg |-> TLog[l].cfg, mat |-> TLog[l].mat, users |-> TLog[l].users])
+    /\ UNCHANGED <<bad, pl>>
 
 TPresent ==
     /\ IsEvent("present")
     /\ PresentAny(TLog[l].req, TLog[l].res)
     /\ pl' = l
-    /\ bad' = IF TLog[l].res \in Outcomes(cfg, TLog[l].req, Env(now, users)) THEN bad
-              ELSE Append(bad, [l |-> l, v |-> [m \in Methods |-> V(cfg, TLog[l].req, Env(now, users), m)],
-                                exp |-> Verdict(cfg, TLog[l].req, Env(now, users))])
+    /\ bad' = IF TLog[l].res \in Outcomes(cfg, TLog[l].req, Cur) THEN bad
+              ELSE Append(bad, [l |-> l, v |-> [m \in Methods |-> V(cfg, TLog[l].req, Cur, m)],
+                                exp |-> Verdict(cfg, TLog[l].req, Cur)])
 
-TNext == TReset \/ TAdv \/ TSync \/ TPresent
+TNext == TReset \/ TAdv \/ TSync \/ TReconf \/ TPresent
 
 TInit ==
     /\ l = 1 /\ pl = 0 /\ bad = <<>>
     /\ cfg = [hdr |-> "both", jwt |-> [on |-> FALSE, alg |-> "HS256", cookie |-> FALSE],
               sig |-> [on |-> FALSE, ttl |-> FALSE, excl |-> FALSE], basic |-> "off"]
-    /\ now = 0 /\ users = Users0 /\ at = Env(0, Users0) /\ req = NoReq /\ res = NoRes /\ n = 0 /\ ns = 0
+    /\ mat = Mat0 /\ now = 0 /\ users = Users0 /\ at = Env(cfg, 0, Users0, Mat0) /\ req = NoReq /\ res = NoRes
+    /\ n = 0 /\ ns = 0 /\ nr = 0
 
 TSpec == TInit /\ [][TNext]_tvars
 
@@ -66,6 +77,7 @@ Flagged == bad # <<>> /\ bad[Len(bad)].l = pl      \* the observation in the cur
 TContract == ~Flagged => /\ OnlyIfAllAccept /\ Complete /\ RejectShape /\ AcceptShape
                          /\ SingleMutationRejected /\ IatNeverRescues /\ NotBeforeNbf /\ NeverAfterExp
                          /\ OnlyCurrentCredentials /\ EmptyTableRejectsAll
+                         /\ OnlyCurrentSecret /\ OnlyCurrentAccessKeys /\ NoAnonymousSigner
 
 ASSUME TLCSet(1, 0)
 HWM == TLCSet(1, IF l - 1 > TLCGet(1) THEN l - 1 ELSE TLCGet(1))
